@@ -168,7 +168,8 @@ class Context:
             self.nontrivial.add(k)
         self.outcomes[str(r.get("obs", "ok"))] += 1
         e = float(r.get("err", 0.0) or 0.0)
-        self.max_err = max(self.max_err, min(e, 1e30) if e == e else 1e30)
+        if not r.get("viol"):  # head-room is reported over the cases that hold
+            self.max_err = max(self.max_err, min(e, 1e30) if e == e else 1e30)
         for n in r.get("notes", []) or []:
             self.notes[n] += 1
         for v in r.get("viol", []) or []:
